@@ -158,6 +158,9 @@ def execute(case, prefix, seed):
         for (s2, sh), blob in files.items():
             ms.write_share(g, si, s2, sh, blob)
         ms.install_server_behaviour(g, dead=dead, replay=replay)
+        # "batch": every answer that has arrived when a reactor turn starts is delivered before the
+        # client's eventual-send queue (where the per-share validation continues) runs
+        g.sched.batch = bool(case.get("batch"))
         contents_by_vid = {vid: c for vid, c in zip(prep["vids"], prep["contents"])}
         state = {"answers": {}, "failed": set(), "acked": set(), "refused": set()}
 
@@ -316,7 +319,7 @@ def chunk(tasks, seed, d_bound, max_exec):
     return res
 
 
-def assignments(fmt, S, h, phase, seed, warm=False):
+def assignments(fmt, S, h, phase, seed, warm=False, batch=False):
     prep = prepare(fmt, S, h, seed)
     per = []
     for sv in range(S):
@@ -329,17 +332,17 @@ def assignments(fmt, S, h, phase, seed, warm=False):
         per.append(opts)
     out = []
     for combo in itertools.product(*per):
-        out.append({"fmt": fmt, "S": S, "h": h, "phase": phase, "assign": list(combo), "warm": warm})
+        out.append({"fmt": fmt, "S": S, "h": h, "phase": phase, "assign": list(combo), "warm": warm, "batch": batch})
     return out
 
 
-def spread_cases(fmt, S, h, warm, with_dead, seed):
+def spread_cases(fmt, S, h, warm, with_dead, seed, batch=False):
     prepare(fmt, S, h, seed)
     out = []
     vs = list(range(0 if with_dead else 1, h + 1))
     for place in itertools.combinations(range(S), N):
         for vers in itertools.product(vs, repeat=N):
-            out.append({"fmt": fmt, "S": S, "h": h, "phase": "read", "warm": warm, "place": list(place), "vers": list(vers)})
+            out.append({"fmt": fmt, "S": S, "h": h, "phase": "read", "warm": warm, "place": list(place), "vers": list(vers), "batch": batch})
     return out
 
 
@@ -354,11 +357,13 @@ def run(tier, seed):
     # (format, S, h, phase, d)
     if tier == "quick":
         plan = [(f, 4, 3, "read", 1) for f in ("SDMF", "MDMF")] + [("MDMF", 6, 2, "read-warm", 0), ("SDMF", 9, 2, "spread-warm", 0)]
+        plan += [("SDMF", 6, 2, "read-warm-batch", 0), ("MDMF", 5, 3, "read-warm-batch", 0), ("SDMF", 6, 2, "read-batch", 0), ("MDMF", 9, 2, "spread-warm-batch", 0), ("SDMF", 4, 2, "publish-batch", 0)]
         plan += [("SDMF", 4, 2, "publish", 1), ("MDMF", 4, 2, "publish", 0), ("SDMF", 4, 3, "publish", 0), ("MDMF", 5, 2, "publish", 0)]
     else:
         plan = [(f, 4, 3, "read", 2) for f in ("SDMF", "MDMF")] + [("SDMF", 5, 4, "read-warm", 1), ("MDMF", 6, 4, "read-warm", 1)]
         plan += [("SDMF", 4, 6, "read", 1), ("MDMF", 5, 5, "read-warm", 0), ("SDMF", 6, 3, "read-warm", 1)]
         plan += [("SDMF", 10, 2, "spread-warm-dead", 0), ("MDMF", 10, 3, "spread-warm", 0), ("SDMF", 12, 2, "spread-cold", 0), ("MDMF", 9, 2, "spread-warm", 1)]
+        plan += [("SDMF", 6, 3, "read-warm-batch", 1), ("MDMF", 5, 4, "read-warm-batch", 1), ("MDMF", 8, 2, "read-batch", 0), ("SDMF", 10, 3, "spread-warm-batch", 0), ("MDMF", 4, 3, "publish-batch", 0), ("SDMF", 5, 2, "publish-batch", 1)]
         plan += [("SDMF", 4, 3, "publish", 1), ("MDMF", 4, 3, "publish", 0), ("SDMF", 4, 4, "publish", 0), ("MDMF", 5, 3, "publish", 0), ("SDMF", 6, 2, "publish", 1), ("SDMF", 4, 6, "publish", 0)]
     res = common.Result()
     desc = []
@@ -374,9 +379,9 @@ def run(tier, seed):
                 for sig, msg in prep["viol"]:
                     res.violation(sig, {"fmt": fmt, "S": S, "h": h}, msg)
             if phase.startswith("spread"):
-                a = spread_cases(fmt, S, h, "warm" in phase, "dead" in phase, seed)
+                a = spread_cases(fmt, S, h, "warm" in phase, "dead" in phase, seed, batch="batch" in phase)
             else:
-                a = assignments(fmt, S, h, phase.split("-")[0], seed, warm=phase.endswith("-warm"))
+                a = assignments(fmt, S, h, phase.split("-")[0], seed, warm="-warm" in phase, batch="batch" in phase)
             cases += a
             desc.append("%s S=%d h=%d %s: %d assignments at d<=%d" % (fmt, S, h, phase, len(a), d))
         res.merge(common.pmap(chunk, cases, (seed, d, 4000), chunks=max(1, min(len(cases), common.NWORKERS * 8))))
